@@ -128,9 +128,12 @@ def run(ctx):
         armor = armor_block('SIGNATURE', pkt)
         eol = '\r\n' if n % 5 == 4 else '\n'
         esc = eol.join(('- ' + l) if l.startswith('-') else l for l in lines)
-        framed = '-----BEGIN PGP SIGNED MESSAGE-----' + eol + 'Hash: ' + hname.upper() + eol + eol + esc + eol + armor.replace('\n', eol)
+        # the Hash armor header(s) as other implementations may write them (RFC 4880 section 7: one OR MORE Hash headers, each a
+        # comma-separated list)
+        hdr = ['Hash: ' + hname.upper(), 'Hash: ' + hname.upper() + eol + 'Hash: MD5', 'Hash: RIPEMD160,' + hname.upper(), 'Hash: ' + hname.upper()][n % 4]
+        framed = '-----BEGIN PGP SIGNED MESSAGE-----' + eol + hdr + eol + eol + esc + eol + armor.replace('\n', eol)
         e = {'k': 'foreign', 'text': codepoints(text), 'framed': codepoints(framed), 'sig': octets(pkt), 'signed_over': octets(hin), 'cls': 'foreign',
-             'eol': 'crlf' if eol == '\r\n' else 'lf', 'trailing_blank': any(l.rstrip(' \t') != l for l in lines)}
+             'eol': ('crlf' if eol == '\r\n' else 'lf') + ['', ' two-hash-lines', ' hash-list', ''][n % 4], 'trailing_blank': any(l.rstrip(' \t') != l for l in lines)}
         try:
             m2 = pgpy.PGPMessage.from_blob(framed)
             e.update({'raised': False, 'reread': codepoints(m2.message), 'verdict': 'truthy' if fpub.verify(m2) else 'falsy'})
